@@ -121,7 +121,8 @@ def make_world(rng):
         items = _window_items(rng, dec, rng.randrange(2, 5), substr=True)
         if not items:
             continue
-        for variant, cfg in (("absent", None), ("ff", {"mnemonics-full-match": False, "operands-full-match": False}),
+        for variant, cfg in (("absent", None), ("plugins_list", {"plugins": ["strip_nops", "tag_calls"]}), ("plugins_map", {"plugins": {"strip_nops": True}, "mnemonics-full-match": True}),
+                             ("ff", {"mnemonics-full-match": False, "operands-full-match": False}),
                              ("tf", {"mnemonics-full-match": True}), ("ft", {"operands-full-match": True}),
                              ("tt", {"mnemonics-full-match": True, "operands-full-match": True})):
             d = {"pattern": copy.deepcopy(items)}
